@@ -214,8 +214,17 @@
 
 /* singlify: two ghost bits X=(g_k,g_i), Y=(g_k2,g_i2) */
 #define GY ((unsigned long)g_k2 * 64UL + (unsigned long)g_i2)
+#ifdef Q_SINGLIFY   /* contract hwloc_bitmap_singlify__q: X=(g_k,g_i) is the first bit of the old set */
+#define QI_SING \
+  LI(__CPROVER_forall { unsigned kq; (kq < QB) ==> ((kq >= i && kq < g_k && kq < set->ulongs_count) ==> set->ulongs[kq] == ZEROW) }) \
+  LI(!found ==> i <= g_k || i <= set->ulongs_count && g_k >= set->ulongs_count) \
+  LI((found && g_k < set->ulongs_count) ==> (g_k < i && set->ulongs[g_k] == (1UL << g_i))) \
+  LI(g_k >= set->ulongs_count ==> !found)
+#else
+#define QI_SING
+#endif
 #define HWLOC_VERIF_LOOP_hwloc_bitmap_singlify_1 \
-  LA(i, found, __CPROVER_object_whole(set->ulongs)) \
+  LA(i, found, __CPROVER_object_whole(set->ulongs)) QI_SING \
   LI(i <= set->ulongs_count && (found == 0 || found == 1)) \
   LI((g_k >= i && g_k < set->ulongs_count) ==> set->ulongs[g_k] == LEW(set, g_k)) \
   LI((g_k2 >= i && g_k2 < set->ulongs_count) ==> set->ulongs[g_k2] == LEW(set, g_k2)) \
@@ -233,18 +242,45 @@
   LD(set->ulongs_count - i)
 
 /* compare: the words above the cursor agree (forall direction of RET==0) */
+/* Q_COMPARE (contract hwloc_bitmap_compare__q): g_k is the highest differing word, the cursor never passes it */
+#ifdef Q_COMPARE
+#define QI_CMP LI((long)i >= (long)g_k)
+#else
+#define QI_CMP
+#endif
 #define HWLOC_VERIF_LOOP_hwloc_bitmap_compare_1 \
-  LA(i) LI((int)min_count - 1 <= i && i < (int)max_count) \
+  LA(i) LI((int)min_count - 1 <= i && i < (int)max_count) QI_CMP \
   LI(((long)g_k > (long)i && g_k < max_count) ==> set2->ulongs[g_k] == val1) \
   LD(i)
 #define HWLOC_VERIF_LOOP_hwloc_bitmap_compare_2 \
-  LA(i) LI((int)min_count - 1 <= i && i < (int)max_count) \
+  LA(i) LI((int)min_count - 1 <= i && i < (int)max_count) QI_CMP \
   LI(((long)g_k > (long)i && g_k < max_count) ==> set1->ulongs[g_k] == val2) \
   LD(i)
+#ifdef Q_COMPARE
+#define QI_CMP3 LI(g_k < min_count ==> (long)i >= (long)g_k)
+#else
+#define QI_CMP3
+#endif
 #define HWLOC_VERIF_LOOP_hwloc_bitmap_compare_3 \
-  LA(i) LI(-1 <= i && i < (int)min_count) \
+  LA(i) LI(-1 <= i && i < (int)min_count) QI_CMP3 \
   LI(((long)g_k > (long)i && g_k < min_count) ==> set1->ulongs[g_k] == set2->ulongs[g_k]) \
   LD(i)
+
+/* compare_first: the cursor never passes the ghost word (contract hwloc_bitmap_compare_first__q) */
+#ifdef Q_COMPARE_FIRST   /* all cases but 4: X=(g_k,g_i) is a bit of one of the sets, the cursor cannot pass its word */
+#define QI_CF(cnt) LI((q_case != 4 && g_k < (cnt)) ==> i <= g_k)
+#else
+#define QI_CF(cnt)
+#endif
+#define HWLOC_VERIF_LOOP_hwloc_bitmap_compare_first_1 \
+  LA(i) LI(i <= min_count) QI_CF(min_count) \
+  LD(min_count - i)
+#define HWLOC_VERIF_LOOP_hwloc_bitmap_compare_first_2 \
+  LA(i) LI(min_count <= i && i <= count2) QI_CF(count2) \
+  LD(count2 - i)
+#define HWLOC_VERIF_LOOP_hwloc_bitmap_compare_first_3 \
+  LA(i) LI(min_count <= i && i <= count1) QI_CF(count1) \
+  LD(count1 - i)
 
 #include "bitmap.loops.todo.h"
 #endif
